@@ -106,6 +106,7 @@ pub fn note_schedule(a: &mut Acc, out: &Outcome) {
         if !r.crashed.is_empty() { a.bump("schedules_with_crashed_worker", 1); }
         a.bump("yields_cutoff_poll", r.yields_by_site[8]);
         a.bump("yields_cache", r.yields_by_site[9] + r.yields_by_site[10]);
+        a.bump("yields_dominance", r.yields_by_site[11]);
     }
     if out.cache.must_explore_refusals > 0 { a.bump("runs_where_must_explore_refused_a_node", 1); }
 }
